@@ -420,8 +420,11 @@ def query(
         statement = statement.strip()
         if statement:
             logger.debug("Parsing: " + statement)
-            var, val = parse(statement, namespace)
-            interpret(var, val, namespace, datastore)
+            try:
+                var, val = parse(statement, namespace)
+                interpret(var, val, namespace, datastore)
+            except RecursionError:
+                raise QueryParseException("Query is nested too deeply") from None
 
     result = get_return(namespace)
     return result
